@@ -51,7 +51,10 @@ def run(ctx) -> None:
     rep.rule = (rep.rule + " | " if rep.rule else "") + rule
     import oracles_gen
     todo = []
+    import time
     for label, seed in cases(ctx, impl, rng):
+        if time.time() > ctx.deadline:
+            break
         pair = {}
         for safe in (False, True):
             api, feats = build(impl, seed)
